@@ -9,6 +9,9 @@ import (
 )
 
 // GenScript produces one random case. kinds restricts the store kinds used.
+// Corruption is the percentage of operations that inject medium corruption (0 = none).
+var Corruption = 0
+
 func GenScript(r *hx.Rand, kinds []string, nops int) []string {
 	kind := kinds[r.Intn(len(kinds))]
 	bm := bmx.Config{Policy: "imm", Old: r.Range(0, 3), Cur: r.Range(0, 3), New: r.Range(1, 3), Sector: r.PickInt(1, 2, 4, 4, 16),
@@ -73,6 +76,8 @@ func GenScript(r *hx.Rand, kinds []string, nops int) []string {
 	var open []int
 	for i := 0; i < nops; i++ {
 		switch x := r.Intn(100); {
+		case x >= 100-Corruption:
+			script = append(script, fmt.Sprintf("corrupt %d", r.Intn(total)))
 		case x < 30:
 			script = append(script, fmt.Sprintf("put %d %d %d %s %s", nextOp, r.Intn(total), r.Intn(3), chunkings[r.Intn(len(chunkings))], faults[r.Intn(len(faults))]))
 			if r.Chance(2, 3) {
